@@ -109,9 +109,10 @@ class ClassSpec:
 
 class ModuleSpec:
 
-  def __init__(self, relpath, float_mode='R'):
+  def __init__(self, relpath, float_mode='R', safety_props=('C09',)):
     self.relpath = relpath
     self.float_mode = float_mode
+    self.safety_props = tuple(safety_props)   # tags of crash-freedom obligations
     self.classes = {}
     self.contracts = {}
     self.inline = set()        # qualnames that are inlined at call sites
